@@ -1,5 +1,5 @@
 """TLC wrapper: exhaustive runs (case emission through PrintT/ToJson), simulation, trace validation."""
-import json, os, re, subprocess, time, shutil, tempfile
+import glob, json, os, re, subprocess, time, shutil, tempfile
 
 ROOT = os.path.dirname(os.path.dirname(os.path.abspath(__file__)))
 SPEC = os.path.join(ROOT, "spec")
@@ -53,7 +53,11 @@ def run(module, cfg=None, workers=16, env=None, timeout=1800, simulate=None, dep
     cmd.append(module + ".tla")
     t0 = time.time()
     res = TlcResult()
-    logp = os.path.join(OUT, f"tlc_{tag}.log")
+    logp = os.path.join(OUT, f"tlc_{tag}.{os.getpid()}.log")     # per process: concurrent checks must not share a log
+    for old in glob.glob(os.path.join(OUT, f"tlc_{tag}.*.log")):
+        try:
+            if time.time() - os.path.getmtime(old) > 6 * 3600: os.remove(old)
+        except OSError: pass
     try:
         with open(logp, "w") as lf:
             p = subprocess.run(cmd, cwd=SPEC, env=e, stdout=lf, stderr=subprocess.STDOUT, timeout=timeout)
